@@ -650,6 +650,9 @@ class RelativeName:
         if type(obj_list) is Postponed:
             self.postponed_counter += 1
             return obj_list
+        if obj_list is None:
+            # an optional element on the path is absent: nothing to propose
+            return []
         # the referenced element must be a list
         # (else it is a design error in the path passed to
         # the RelativeName object).
@@ -714,6 +717,9 @@ class ExtRelativeName:
         )
 
         def_obj = resolve_model_path(obj, self.path_to_definition_object)
+        if def_obj is None:
+            # an optional element on the path is absent: nothing to propose
+            return []
         def_objs = get_list_of_concatenated_objects(def_obj, self.path_to_extension)
         # for all containing classes, collect all
         # objects to be looked up (e.g. methods)
